@@ -352,6 +352,10 @@ def _check_one(expr: str, col: core.Collector, source: str, clear: bool, history
     # (2) no PEP 604 union left outside constants
     if any(_is_bitor(n) for n in ast.walk(otree)):
         col.violation("no-bitor-left", case, f"output {out!r} still contains a | operator")
+    # (2b) the documented builtin names are spelt typing.X wherever they occur as names (bare or subscripted)
+    left = sorted({n.id for n in ast.walk(otree) if isinstance(n, ast.Name) and n.id in _BARE})
+    if left:
+        col.violation("builtin-names-rewritten", case, f"output {out!r} still names {left}", bucket=",".join(left))
     # (3) fixpoint
     k2, out2 = tl.call(transform, out)
     if k2 == "exc" or out2 != out:
